@@ -223,9 +223,11 @@ func runC17(r *simkit.Run) {
 	})
 	defer setBatchLockYield(nil)
 	inSched.Store(true)
-	if err := proc.Start(context.Background(), componenttest.NewNopHost()); err != nil {
+	sctx, started := simkit.StartContext(tp)
+	if err := proc.Start(sctx, componenttest.NewNopHost()); err != nil {
 		panic(err)
 	}
+	started()
 	inSched.Store(false)
 	r.Settle()
 	timeout := time.Duration(cfg.TimeoutS) * time.Second
